@@ -44,8 +44,40 @@ FRAME_POS = [(0.3, 0.3, 0.3), (0.62, 0.4, 0.71), (0.15, 0.8, 0.45)]
 TRACKS1 = [(1, 1, 1), (3, 0, 5), (0, 5, 5), (5, 0, 1)]
 
 
+def run_large(res):
+    """30 x 40 atoms over 1003 frames (1.2 million pair distances): every frame must be counted."""
+    from gemdat.rdf import radial_distribution_between_species
+
+    T, n1, n2 = 1003, 30, 40
+    M = np.eye(3) * 9.0
+    k = np.arange(T)[:, None, None]
+    a = np.arange(n1 + n2)[None, :, None]
+    c = np.arange(3)[None, None, :]
+    coords = np.mod(0.6180339887 * (a * 3 + c + 1) * (1 + 0.01 * c) + 0.013 * np.sin(0.37 * k + a + c) + 0.0007 * k * (c + 1), 1.0)
+    traj = concretise.make_trajectory(coords, ['Li'] * n1 + ['S'] * n2, M, time_step=1e-15)
+    max_dist, reso = 3.0, 0.5
+    bins = np.arange(0, max_dist + reso, reso)
+    d = coords[:, :n1, None, :] - coords[:, None, n1:, :]
+    d -= np.round(d)
+    dist = np.linalg.norm(d * 9.0, axis=-1).ravel()
+    cnt, _ = np.histogram(dist, bins=bins)
+    near = np.any(np.abs(dist[:, None] - bins[None, :]) < 1e-9)
+    norm = (n2 / 9.0**3) * (4.0 / 3.0) * math.pi * ((bins[:-1] + reso) ** 3 - bins[:-1] ** 3)
+    case = {'large_pair': [T, n1, n2]}
+    try:
+        r = radial_distribution_between_species(trajectory=traj, specie_1='Li', specie_2='S', max_dist=max_dist, resolution=reso)
+        raw = np.asarray(r.y) * norm
+        res.evals += T * n1 * n2
+        res.outcome(('large', int(raw.sum())))
+        if not near and not np.allclose(raw, cnt, atol=1e-6):
+            res.violation('rdf-between-species-not-normalised-brute-force-histogram', case, f'{T} frames x {n1} x {n2}: counts {np.round(raw).astype(int).tolist()} brute force {cnt.tolist()}')
+    except Exception as e:  # noqa: BLE001
+        res.violation(f'rdf-between-species-raise-{type(e).__name__}', case, str(e))
+    res.sample({'large_species_pair': {'frames': T, 'atoms': [n1, n2]}})
+
+
 def shards(tier, seed):
-    out = []
+    out = [{'large': True}]
     lats = alphabets.lattices(tier, seed)
     if tier == 'quick':
         lats = [l for l in lats if l[0] in ('cubic6', 'ortho567-axes-permuted', 'tric-pmg-default', 'hex-a5-c7')]
@@ -259,6 +291,10 @@ def evaluate(trace, M, labels, param, fw, res: Result, ox=0):
 
 def run_shard(shard) -> Result:
     res = Result()
+    if shard.get('large'):
+        run_large(res)
+        res.stats['scenarios'] += 1
+        return res
     M = np.array(shard['M'])
     for trace in traces_for(shard['part'], shard['tier']):
         evaluate(trace, M, shard['labels'], shard['param'], shard['fw'], res, shard.get('ox', 0))
@@ -275,5 +311,8 @@ def finalize(total, tier):
 
 def replay(case):
     res = Result()
+    if 'large_pair' in case:
+        run_large(res)
+        return [{'kind': v['kind'], 'detail': v['detail']} for v in res.viols]
     evaluate(case['trace'], np.array(case['M']), case['labels'], case['param'], case['fw'], res, case.get('ox', 0))
     return [{'kind': v['kind'], 'detail': v['detail']} for v in res.viols]
